@@ -3,7 +3,7 @@ from .common import *
 
 RULE = ("the harness (and the library under it) is rebuilt under several build configurations (level count, per-level maximum heights, per-level minimum Winternitz "
         "parameters); for parameter lists inside the limits keygen / sign / verify / lifetime must give the same bytes as the default build and the key must be fully usable; "
-        "lists just outside each limit must be refused with an error; the generated constants must equal the model's Config capacities; default-build signatures of keys beyond each configuration (more levels, smaller W, taller trees) verified by the constrained build")
+        "lists just outside each limit must be refused with an error; the generated constants must equal the model's Config capacities; default-build signatures of keys beyond each configuration (more levels, smaller W, taller trees) verified by the constrained build; keygen / sign with an all-levels buffer inside each configuration")
 ASSUMPTIONS = ["configurations are chosen so that trees stay affordable (heights 5/10 as maxima, lists use H2/H5)",
                "the default build is the reference for 'same bytes'"]
 
@@ -90,6 +90,20 @@ def run(ctx):
             for c in (0, (1 << sum(heights_of(ps))) - 1):
                 cases.append(Case(sign_line(H, sk_blob(H, ps, seed, c), b"cfg-msg"), "inside/sign", {"vk": (H, ps, seed)}))
                 cases.append(Case(lifetime_line(H, sk_blob(H, ps, seed, c)), "inside/lifetime"))
+        # ... and with an auxiliary buffer that caches every level of the top tree (in a constrained build the top tree can be as tall as
+        # MAX_TREE_HEIGHT): same key pair and signature as the default build produces without a buffer
+        acases = []
+        for (H, ps, seed) in inside:
+            n = HASHES[H]
+            h0 = heights_of(ps)[0]
+            big = bytes(4 + n + sum(n << l for l in range(1, h0 + 1)) + 64)
+            acases.append(Case(keygen_line(H, ps, seed, big), "inside/keygen-with-aux", {"ref": keygen_line(H, ps, seed)}))
+            acases.append(Case(sign_line(H, sk_blob(H, ps, seed, 0), b"cfg-msg", "accept", big), "inside/sign-with-aux", {"ref": sign_line(H, sk_blob(H, ps, seed, 0), b"cfg-msg")}))
+        for c, a, b in ctx.both(acases, None):
+            fa, fr = (fields(a) if not a.startswith("panic") else {}), fields(ref[c.meta["ref"]])
+            if a.startswith("panic") or fa.get("vk") != fr.get("vk") or fa.get("sig") != fr.get("sig") or fa.get("cb") != fr.get("cb"):
+                ctx.fail("constrained build %s answers differently from the default build for a list inside its limits (with an auxiliary buffer)" % json.dumps(cfg),
+                         [c.line[:300]], a[:200], ref[c.meta["ref"]][:200])
         ver = []
         for c, a, b in ctx.both(cases, None):
             if a != ref[c.line]:
